@@ -630,6 +630,27 @@ fn big_store_strategy(max: u32) -> impl Strategy<Value = StoreCase> {
     (prop_oneof![3 => Just(false), 1 => Just(true)], store_spec(1..7, big_count(max), 4, 5), locs_strategy(1..3)).prop_map(|(implicit, spec, locs)| StoreCase { implicit, spec, locs })
 }
 
+/// fixed cases with more than 65535 distinct rows of one shape (the builder must split them over subtables)
+fn huge_case(i: u64) -> StoreCase {
+    let regions = vec![vec![(0, 16384, 16384)], vec![(0, 8192, 16384)], vec![(-16384, -16384, 0)]];
+    let (shape, base, step, count) = match i {
+        // 16-bit + 32-bit column, every row distinct, ascending
+        0 => (vec![(0u32, 2u8), (0x6000_0000, 3)], vec![5, 100_000], vec![1, 7], 70_000u32),
+        // descending 32-bit values next to a small group of another shape
+        1 => (vec![(0xC000_0000u32, 3u8)], vec![1 << 30], vec![-3], 66_000),
+        // 8-bit + 16-bit + 32-bit: two full subtables and a remainder
+        _ => (vec![(0u32, 1u8), (0x6000_0000, 2), (0xC000_0000, 3)], vec![0, 0, 0], vec![1, 1, 1], 140_000),
+    };
+    let spec = StoreSpec {
+        n_axes: 1,
+        regions,
+        shapes: vec![shape, vec![(0, 1)]],
+        groups: vec![Group { shape: 0, count, base, step }, Group { shape: 0x8000_0000, count: 300, base: vec![1], step: vec![1] }],
+        order: if i == 2 { 3 } else { 0 },
+    };
+    StoreCase { implicit: false, spec, locs: vec![vec![Coord::Bits(12288)], vec![Coord::Bits(-16384)]] }
+}
+
 fn test_store(c: &StoreCase, stats: &Stats) -> CaseResult {
     let mut model = expand(&c.spec);
     if model.rows.is_empty() {
@@ -1545,6 +1566,10 @@ fn main() {
     ctx.set_rule("tbd");
     ctx.prop_stage("store", Isolation::Threads, ctx.n(6_000, 60_000), store_strategy, test_store);
     ctx.prop_stage("big-store", Isolation::Threads, ctx.n(60, 600), || big_store_strategy(12_000), test_store);
+    ctx.index_stage("huge-store", Isolation::Threads, 3, huge_case, test_store);
+    if !ctx.quick() {
+        ctx.prop_stage("huge-store-generated", Isolation::Threads, 24, || big_store_strategy(90_000), test_store);
+    }
     ctx.prop_stage("normalize", Isolation::Threads, ctx.n(20_000, 200_000), norm_strategy, test_norm);
     ctx.prop_stage("normalize-widespan", Isolation::Threads, ctx.n(2_000, 2_000), widespan_strategy, test_widespan);
     ctx.prop_stage("avar", Isolation::Threads, ctx.n(20_000, 200_000), avar_strategy, test_avar);
